@@ -278,9 +278,14 @@ def _short(x, limit=600):
 
 
 def load_known():
+    out = []
     if KNOWN_FILE.exists():
-        return json.loads(KNOWN_FILE.read_text()).get("findings", [])
-    return []
+        out += json.loads(KNOWN_FILE.read_text()).get("findings", [])
+    d = ROOT / "known_findings.d"          # per-property files while a check is being developed; merged on integration
+    if d.exists():
+        for f in sorted(d.glob("*.json")):
+            out += json.loads(f.read_text()).get("findings", [])
+    return out
 
 
 def match_known(entry, failure) -> bool:
